@@ -86,18 +86,35 @@ pub fn canon(v: &Value, root: &Value, stack: &mut Vec<String>, fuel: &mut usize)
                     None => json!({"$dangling": r}),
                 };
             }
+            // a discriminated union ({type: object, discriminator, oneOf | anyOf}) says what the plain union of its
+            // variants says; nested unions are flattened and members sorted
+            if o.contains_key("discriminator") && (o.contains_key("oneOf") || o.contains_key("anyOf")) {
+                let members = o.get("oneOf").or(o.get("anyOf")).cloned().unwrap_or(json!([]));
+                return canon(&json!({"anyOf": members}), root, stack, fuel);
+            }
             let mut m = serde_json::Map::new();
             for (k, x) in o {
                 if k == "description" && x.is_string() {
                     continue; // annotation
                 }
-                if k == "discriminator" {
-                    if let Some(pn) = x.get("propertyName") {
-                        m.insert(k.clone(), json!({"propertyName": pn}));
-                    }
-                    continue;
-                }
                 m.insert(k.clone(), canon(x, root, stack, fuel));
+            }
+            if m.len() == 1 {
+                if let Some(Value::Array(members)) = m.get("anyOf").cloned() {
+                    let mut flat: Vec<Value> = vec![];
+                    for x in members {
+                        match x.as_object().filter(|mo| mo.len() == 1).and_then(|mo| mo.get("anyOf")).and_then(|y| y.as_array()) {
+                            Some(inner) => flat.extend(inner.iter().cloned()),
+                            None => flat.push(x),
+                        }
+                    }
+                    flat.sort_by_key(|x| x.to_string());
+                    flat.dedup();
+                    if flat.len() == 1 {
+                        return flat.pop().unwrap();
+                    }
+                    m.insert("anyOf".into(), Value::Array(flat));
+                }
             }
             Value::Object(m)
         }
@@ -297,6 +314,9 @@ impl Check for C16 {
                     let a = canon_of(&r1["returned"][ci]["r"], e1, &case.cfg);
                     let b = canon_of(&rf["returned"][0]["r"], &rf["exported"]["r"], &case.cfg);
                     if a.is_none() || b.is_none() || a != b {
+                        if std::env::var("DEBUG_C16").is_ok() {
+                            eprintln!("CANON h1 {}:\nA={}\nB={}", p, a.clone().unwrap_or(Value::Null), b.clone().unwrap_or(Value::Null));
+                        }
                         sem_equal = false;
                     }
                 }
